@@ -43,6 +43,7 @@ EXPLANATION = (
     "(U6) The protocol machine finds no second upload-handler invocation / chain consultation over any activation sequence, and the content handed over is buffer[:size] (C07.S2). "
     "(U5, values) the configured upload size limit reaches the handler unchanged (abstract evaluation with 0)."
     ' (U7) the configured token list reaches the upload handler unfiltered: no store to ServerConfig.titan_auth_tokens and no step of from_toml / get_upload_handler / FileUploadHandler.__init__ contains a filtering or element-rewriting comprehension, filter()/map() or a trimming call.'
+    ' (U8) = C15.X6 (log processors total). (U9) carrier rule on titan_* settings.'
 )
 
 HANDLER = "server.handler:FileUploadHandler"
@@ -414,6 +415,13 @@ def run(chk: Check) -> None:
     rule_u3(chk, ci)
     rule_u4_u5(chk, ci)
     rule_u7(chk)
+    from .common import config_fields_carrier
+
+    config_fields_carrier(chk, "U9", ("titan_", "enable_titan"), "upload settings (tokens, size limit, media types, delete switch, directory)", "uploads are accepted that the written configuration refuses")
+    from .c15 import rule_x6
+    from .common import reuse as _reuse8
+
+    _reuse8(chk, rule_x6, "U8", "the logging pipeline cannot raise between the store and the response: the package's own structlog processors are total (= C15.X6) - a raising log call after the file was written turns a completed upload into a `40`", ("X6",))
     # U5 (values): the configured size limit reaches the handler as written (0 = frozen capsule)
     from .c10 import config_value_fidelity
 
